@@ -4,19 +4,30 @@
    The property theorems do not depend on it (they hold for every evaluator). *)
 Require Export KV.Update.Model.
 
-Inductive pterm := PVar (v : N) | PConst (t : term).
+Inductive pterm := PVar (v : N) | PConst (t : term) | PQuoted (s p o : pterm).   (* << s p o >> with variables *)
 Definition tpat := (pterm * pterm * pterm)%type.
 Inductive scope := SDefault | SConst (g : term) | SVar (v : N).
 Definition block := (scope * list tpat)%type.
 Definition gwhere := list (list block).      (* UNION of joins of blocks; [[]] is the empty group *)
 
-Definition match_pt (pt : pterm) (t : term) (sol : solution) : option solution :=
+Fixpoint match_pt (pt : pterm) (t : term) (sol : solution) : option solution :=
   match pt with
   | PConst c => if term_eqb c t then Some sol else None
   | PVar v => match lookup v sol with
               | Some t' => if term_eqb t' t then Some sol else None
               | None => Some ((v, t) :: sol)
               end
+  | PQuoted a b c =>
+      match t with
+      | Qt s p o => match match_pt a s sol with
+                    | None => None
+                    | Some s1 => match match_pt b p s1 with
+                                 | None => None
+                                 | Some s2 => match_pt c o s2
+                                 end
+                    end
+      | _ => None
+      end
   end.
 
 Definition match_tp (tp : tpat) (q : quad) (sol : solution) : option solution :=
@@ -49,7 +60,12 @@ Definition eval_block (D : dataset) (sols : list solution) (b : block) : list so
 Definition eval_join (D : dataset) (bs : list block) : list solution := fold_left (eval_block D) bs [[]].
 Definition eval_gwhere (w : gwhere) (D : dataset) : list solution := flat_map (eval_join D) w.
 
-Definition pt_terms (p : pterm) : list term := match p with PConst c => [c] | PVar _ => [] end.
+Fixpoint pt_terms (p : pterm) : list term :=
+  match p with
+  | PConst c => [c]
+  | PVar _ => []
+  | PQuoted a b c => pt_terms a ++ pt_terms b ++ pt_terms c
+  end.
 Definition block_terms (b : block) : list term :=
   match fst b with SConst g => [g] | _ => [] end ++
   flat_map (fun tp => pt_terms (fst (fst tp)) ++ pt_terms (snd (fst tp)) ++ pt_terms (snd tp)) (snd b).
@@ -57,14 +73,14 @@ Definition gwhere_terms (w : gwhere) : list term := flat_map (flat_map block_ter
 
 (* parser.rs: sparql_quads_to_group - the pattern of `DELETE WHERE { quads }`; in a pattern the
    keyword `a` is rdf:type (compile_triple) and a blank-node label is a constant *)
-Definition pt_of_tterm (t : tterm) : pterm :=
+Fixpoint pt_of_tterm (pred : bool) (t : tterm) : pterm :=
   match t with
   | TVar v => PVar v
   | TConst c => PConst c
   | TBnode l => PConst (Bn 0 l)
-  | TKwA => PConst a_word
+  | TKwA => PConst (if pred then rdf_type else a_word)
+  | TQuoted s p o => PQuoted (pt_of_tterm false s) (pt_of_tterm true p) (pt_of_tterm false o)
   end.
-Definition pt_of_pred (t : tterm) : pterm := match t with TKwA => PConst rdf_type | _ => pt_of_tterm t end.
 Definition short_where (qs : list tquad) : gwhere :=
   [map (fun q => (match tq_g q with GDefault | GInvalid => SDefault | GVar v => SVar v | GConst g => SConst g end,
-                  [(pt_of_tterm (tq_s q), pt_of_pred (tq_p q), pt_of_tterm (tq_o q))])) qs].
+                  [(pt_of_tterm false (tq_s q), pt_of_tterm true (tq_p q), pt_of_tterm false (tq_o q))])) qs].
